@@ -143,6 +143,8 @@ def tally(rep, case, impl_res, ans):
     spec = case['spec']
     rep.count('storage:%s' % ('sparse' if spec.get('template_ind') is not None else 'dense'))
     rep.count('n_closest:%d' % case['n_closest'])
+    if spec.get('_scaled_template'):
+        rep.count('one_template_2^%d_times_larger_than_the_others' % spec['_scaled_template'])
     rep.count('shanks:%s' % (spec.get('channel_shanks') is not None))
     rep.count('records', len(case['variants']))
     for v in case['variants']:
@@ -194,6 +196,13 @@ def gen(tier, rng):
                     row[0] = next(c for c in range(nc) if c not in used)
                     data[0][0] = 4.
                 ind.append(row); tm.append(data)
+            if rng.random() < .35:
+                # templates of very different overall size (one unit a few million times larger than another):
+                # "signal-free" is relative to the template's own peak, never to the other templates
+                big = rng.randrange(nt)
+                k = rng.pick([10, 22])
+                tm[big] = [[x * 2.0 ** k for x in r] for r in tm[big]]
+                spec['_scaled_template'] = k
             spec['templates'] = tm
             spec['template_ind'] = ind
             variants = [dict(t=t, unwhiten=u) for t in range(nt) for u in (True, False)]
